@@ -8,15 +8,15 @@ fn within(reported: usize, retained: usize, components: usize) -> bool {
 }
 
 // @h props=C16,C04:t tier=quick family=A mem=14 timeout=1800 role=space.darray
-// @bound DArray<true> assembled from an empty bit vector and two Inventories whose three buffers have symbolic independent lengths (blocks 0..=32, sub-blocks 0..=128, overflow 0..=64)
+// @bound DArray<true> assembled from an empty bit vector and two Inventories whose three buffers have symbolic independent lengths (blocks 0..=16, sub-blocks 0..=96, overflow 0..=40)
 // @funcs DArray::space_usage_byte, Inventories::space_usage_byte, Box<[T]>::space_usage_byte
 #[kani::proof]
-#[kani::unwind(130)]
+#[kani::unwind(98)]
 fn c16_darray() {
-    let b1 = kani::vec::any_vec::<i64, 32>();
-    let s1 = kani::vec::any_vec::<u16, 128>();
-    let o1 = kani::vec::any_vec::<usize, 64>();
-    let b0 = kani::vec::any_vec::<i64, 32>();
+    let b1 = kani::vec::any_vec::<i64, 16>();
+    let s1 = kani::vec::any_vec::<u16, 96>();
+    let o1 = kani::vec::any_vec::<usize, 40>();
+    let b0 = kani::vec::any_vec::<i64, 16>();
     let ret = size_of::<DArray<true>>() + 8 * b1.len() + 2 * s1.len() + 8 * o1.len() + 8 * b0.len();
     let ones = Inventories::<true> {
         n_sets: kani::any(),
@@ -33,6 +33,6 @@ fn c16_darray() {
     let da = DArray::<true> { bv: BitVector::default(), ones_inventories: ones, zeroes_inventories: Some(zeros), ..Default::default() };
     let rep = da.space_usage_byte();
     assert!(within(rep, ret, 8));
-    kani::cover!(da.ones_inventories.subblock_inventory.len() == 128, "largest sub-block buffer");
+    kani::cover!(da.ones_inventories.subblock_inventory.len() == 96, "largest sub-block buffer");
     core::mem::forget(da);
 }
